@@ -663,8 +663,11 @@ class CircularGaussianPSF(Fittable2DModel):
             The list of partial derivatives with respect to each
             parameter.
         """
-        return GaussianPSF().fit_deriv(x, y, flux, x_0, y_0, fwhm, fwhm,
-                                       0.0)[:-2]
+        deriv = GaussianPSF().fit_deriv(x, y, flux, x_0, y_0, fwhm, fwhm,
+                                        0.0)
+        # x_fwhm = y_fwhm = fwhm, so the derivative with respect to fwhm
+        # is the sum of the x_fwhm and y_fwhm partial derivatives
+        return [deriv[0], deriv[1], deriv[2], deriv[3] + deriv[4]]
 
     @property
     def input_units(self):
